@@ -156,7 +156,8 @@ def r2_sum(ctx):
             same_idx = tgt[0] == "sub" and tgt[2] == ("idx", val[2]) if pred_el else False
             ok = True if op == "+" and pred_el and same_idx else (False if op != "+" else None)
         elif not augs:
-            ok = False
+            # no in-place accumulation on this path: a violation only if the result does not depend on the predictions at all
+            ok = None if any(x == e0.data[0] for x in walk(p.value)) or any(isinstance(x, tuple) and x and x[0] in ("mu", "prev") for x in walk(p.value)) else False
         ctx.check("R2", qn + "|accumulates-per-component", ok, "result[i] += pred_i for every component of every predicting step", bad="predictions are not summed (operator %s)" % (augs[0].data[1] + "=" if augs else "missing"), fn=qn)
         first_time = any(c[0] == "cmp" and c[1] == "is" and c[2][0] == "prev" and c[3] == NONE and v for c, v in p.conds)
         if first_time and augs:
